@@ -2,6 +2,9 @@
 C16 — atomic read-modify-write operations are indivisible.
 
 Property theorems only (helper lemmas: Lemmas/AtomicsLemmas.lean; model: Model/Atomics.lean).
+Companion files: Props/C16Width.lean (type.c ND_CAS / ND_EXCH accept only operands of ONE width, and the code generator then
+prints exactly the sequences whose interleavings are studied here; plain loads/stores are single instructions),
+Props/C16Qual.lean (`_Atomic` propagation: every lvalue that is atomic in C is updated through these sequences).
 Every theorem is for every object width (8, 16, 32, 64 bits), every kind of object type (signed,
 unsigned, floating: this only selects the register extension), every number of threads, every
 program (list of operations per thread, the update functions being arbitrary), every initial
